@@ -13,7 +13,17 @@ def load_known():
         return []
     with open(KNOWN) as f:
         data = json.load(f)
-    return data.get("findings", [])
+    out = []
+    for k in data.get("findings", []):
+        if "constructs" in k:
+            for c in k["constructs"]:
+                e = dict(k)
+                del e["constructs"]
+                e["construct"] = c
+                out.append(e)
+        else:
+            out.append(k)
+    return out
 
 
 class Check:
@@ -34,6 +44,8 @@ class Check:
         self.nontrivial = set()
         self.evaluations = 0
         self.known = [k for k in load_known() if k.get("property") == prop and k.get("status", "known") == "known"]
+        self.known_index = set((k.get("rule"), k.get("construct"), k.get("witness_class")) for k in self.known)
+        self.known_seen = set()
         self.seed = int(os.environ.get("VERIF_SEED", "0") or 0)
         self.replay = replay
         self.replay_filter = None
@@ -77,14 +89,14 @@ class Check:
         """Report REFUTED/ABSENT. Matches the committed known-findings list; never writes it."""
         if self.replay_filter and (rule, construct) != self.replay_filter:
             return
-        for k in self.known:
-            if k.get("rule") == rule and k.get("construct") == construct and k.get("witness_class") == wclass:
-                if (rule, construct, wclass) not in [(h[0], h[1], h[2]) for h in self.known_hits]:
-                    self.known_hits.append((rule, construct, wclass, message))
-                return
-        for v in self.violations:
-            if v["rule"] == rule and v["construct"] == construct and v["witness_class"] == wclass:
-                return
+        if (rule, construct, wclass) in self.known_index:
+            if (rule, construct, wclass) not in self.known_seen:
+                self.known_seen.add((rule, construct, wclass))
+                self.known_hits.append((rule, construct, wclass, message))
+            return
+        if (rule, construct, wclass) in self.known_seen:
+            return
+        self.known_seen.add((rule, construct, wclass))
         rec = {"property": self.prop, "rule": rule, "construct": construct, "witness_class": wclass,
                "message": message, "details": details or {}}
         self.violations.append(rec)
